@@ -15,6 +15,7 @@ import (
 	"time"
 
 	"nhooyr.io/websocket"
+	"nhooyr.io/websocket/wsjson"
 	"verifharness/ws"
 )
 
@@ -125,10 +126,39 @@ type variant struct {
 	Chunk   string `json:"chunk"` // whole | one | rand
 	Final   bool   `json:"bfinal"`
 	ReadBuf int    `json:"readbuf"`
-	API     string `json:"api"` // reader | read
+	API     string `json:"api"` // reader | read | wsjson | netconn
+	// Body: what the data messages say.  "" = pseudo-random bytes; "json" = every planned message is one JSON string spanning all
+	// its fragments; "jsonpad" = the JSON value is complete at the end of the first non-empty fragment and the rest of the
+	// message is white space (or empty fragments): a decoder that stops at the end of the value has not seen the end of the message
+	Body string `json:"body,omitempty"`
 	// Scale > 0 replaces the 5-byte payload of data letters by Scale incompressible bytes
 	// (sizes around the library's internal buffer sizes and the framing boundaries)
 	Scale int `json:"scale,omitempty"`
+}
+
+// jsonBody is a JSON text of exactly total bytes: a string (a digit when there is room for one byte only, nothing when there
+// is none); with pad the value ends after first bytes and blanks follow.
+func jsonBody(seed int64, i, total, first int, pad bool) []byte {
+	n := total
+	if pad && first > 0 {
+		n = first
+	}
+	b := make([]byte, 0, total)
+	switch {
+	case n == 0:
+	case n == 1:
+		b = append(b, '7')
+	default:
+		b = append(b, '"')
+		for k := 0; k < n-2; k++ {
+			b = append(b, byte('a'+(int(seed)+i+k)%26))
+		}
+		b = append(b, '"')
+	}
+	for len(b) < total {
+		b = append(b, " \n\t"[len(b)%3])
+	}
+	return b
 }
 
 func rawRandom(seed int64, i, n int) []byte {
@@ -188,8 +218,21 @@ func concretise(ls []letter, v variant, seed int64) concStream {
 		comp := l.Rsv1 && mode.Flate()
 		m := concMsg{comp: comp}
 		mi := len(cs.msgs)
+		if v.Body != "" {
+			total, first := 0, 0
+			for _, g := range group {
+				total += ls[g].Len
+				if first == 0 {
+					first = ls[g].Len
+				}
+			}
+			m.plain = jsonBody(seed, i, total, first, v.Body == "jsonpad")
+		}
 		for _, g := range group {
 			msgOf[g] = mi
+			if v.Body != "" {
+				continue
+			}
 			if comp && v.Scale > 0 {
 				m.plain = append(m.plain, rawRandom(seed, g, ls[g].Len)...)
 			} else if comp {
@@ -219,6 +262,7 @@ func concretise(ls []letter, v variant, seed int64) concStream {
 		}
 		cs.msgs = append(cs.msgs, m)
 	}
+	used := make([]int, len(cs.msgs)) // bytes of each planned message already put into frames (Body != "")
 	for i, l := range ls {
 		f := ws.Frame{Fin: l.Fin, Rsv1: l.Rsv1, Rsv2: l.Rsv2, Rsv3: l.Rsv3, Op: l.Op}
 		f.Masked = peerMasks == l.MaskOK
@@ -241,6 +285,12 @@ func concretise(ls []letter, v variant, seed int64) concStream {
 			cf.plain = f.Payload
 		case msgOf[i] >= 0 && cs.msgs[msgOf[i]].comp:
 			f.Payload = pieces[i]
+			cf.isData = true
+		case v.Body != "" && msgOf[i] >= 0:
+			mi := msgOf[i]
+			f.Payload = cs.msgs[mi].plain[used[mi] : used[mi]+l.Len]
+			used[mi] += l.Len
+			cf.plain = f.Payload
 			cf.isData = true
 		default:
 			f.Payload = prf(seed, i, l.Len)
@@ -278,6 +328,8 @@ type recvObs struct {
 	panicked    string
 	pending     bool
 	handedTotal int
+	jsonVals    []interface{} // API wsjson: the values of the calls that returned nil
+	stream      []byte        // API netconn: every byte NetConn.Read handed over
 }
 
 type recvCfg struct {
@@ -288,7 +340,8 @@ type recvCfg struct {
 	limit   *int64
 	limits  []*int64 // per-message SetReadLimit before reading message k (nil = keep)
 	maxMsgs int
-	sent    []concFrame // the frames stream consists of, when it was built from frames (announced to TraceRecv)
+	sent    []concFrame           // the frames stream consists of, when it was built from frames (announced to TraceRecv)
+	ncType  websocket.MessageType // API netconn: the message type the adapter is created for
 }
 
 func runRecv(cfg recvCfg, rng *rand.Rand) (o recvObs) {
@@ -344,7 +397,28 @@ func runRecv(cfg recvCfg, rng *rand.Rand) (o recvObs) {
 			c.SetReadLimit(*cfg.limit)
 		}
 		buf := make([]byte, cfg.v.ReadBuf)
+		if cfg.v.API == "netconn" {
+			nc := websocket.NetConn(ctx, c, cfg.ncType)
+			for {
+				n, err := nc.Read(buf)
+				o.stream = append(o.stream, buf[:n]...)
+				o.handedTotal += n
+				if err != nil {
+					o.finalErr = err
+					return
+				}
+			}
+		}
 		for k := 0; ; k++ {
+			if cfg.v.API == "wsjson" {
+				var v interface{}
+				if err := wsjson.Read(ctx, c, &v); err != nil {
+					o.finalErr = err
+					return
+				}
+				o.jsonVals = append(o.jsonVals, v)
+				continue
+			}
 			if k < len(cfg.limits) && cfg.limits[k] != nil {
 				c.SetReadLimit(*cfg.limits[k])
 			}
@@ -428,6 +502,7 @@ type caseID struct {
 	Cut     int      `json:"cut,omitempty"`
 	CutKind string   `json:"cutkind,omitempty"`
 	EndErr  bool     `json:"enderr,omitempty"`
+	ncType  websocket.MessageType
 }
 
 // checkWire compares the frames the library wrote with the specification's wire prediction.
